@@ -66,7 +66,26 @@ def ratOfBits (n : Nat) : Option Rat :=
 
 def tolFloat : Float := Float.ofNat Gen.C06.angleTolNum / Float.ofNat Gen.C06.angleTolDen
 
+/-- the regenerated formulas of `angular_distance` evaluated at `Float` -/
+def angE (p q : Q4 Float) : Float := angDistE Gen.C06.angExpr fl Float.ofNat p q
+def dist2E (p q : Q4 Float) : Float := angDistE Gen.C06.dist2Expr fl Float.ofNat p q
+
+/-- does the regenerated input dispatch of `angular_distance` turn an argument of python type `ty` (argument number `i`) into a rotation?
+An ndarray must go through `srot.from_euler(convention, <arg>, degrees=degrees)` (defaults `'zxz'`, `True`: `angHeader`), a `Rotation` is used as it is. -/
+def inputOk (i : Nat) (ty : String) : Bool :=
+  match (Gen.C06.angInputs[i]?).bind (fun t => inputConversion t ty) with
+  | some conv => if ty == "np.ndarray" then conv == "srot.from_euler(convention, <arg>, degrees=degrees)" else conv == "<arg>"
+  | none => false
+
+def formsOk (j : Json) : Bool :=
+  match getArr? j "forms" with
+  | some a => (a.toList.zipIdx.all fun (t, i) => match t with
+      | Json.str s => inputOk i s
+      | _ => false)
+  | none => true
+
 def handleDist (j : Json) : Json :=
+  if !formsOk j then err "model:input-dispatch-does-not-convert-this-argument-type" else
   match rows? j "a" >>= (·.mapM quatOfEuler), rows? j "b" >>= (·.mapM quatOfEuler) with
   | some qa, some qb =>
     let g := flist? j "g" >>= quatOfEuler
@@ -78,7 +97,8 @@ def handleDist (j : Json) : Json :=
       | _, _ => q
     let ps := (qa.map tr).zip (qb.map tr)
     Json.mkObj [
-      ("ang", fjs (ps.map fun (p, q) => angDist fl p q)),
+      ("ang", fjs (ps.map fun (p, q) => angE p q)),
+      ("dist2s", fjs (ps.map fun (p, q) => dist2E p q)),
       ("asis", fjs (ps.map fun (p, q) => angDistAsIs fl p q)),
       ("absdot", fjs (ps.map fun (p, q) => absDot p q)),
       ("dist2", fjs (ps.map fun (p, q) => dist2 p q)),
@@ -88,10 +108,11 @@ def handleDist (j : Json) : Json :=
 
 /-- `compare_rotations` for a list of `rotation_type` values (JSON null = keyword omitted → the anchored default) -/
 def handleCompare (j : Json) : Json :=
+  if !formsOk j then err "model:input-dispatch-does-not-convert-this-argument-type" else
   match rows? j "a" >>= (·.mapM quatOfEuler), rows? j "b" >>= (·.mapM quatOfEuler), flist? j "p1", flist? j "p2", getArr? j "types" with
   | some qa, some qb, some p1, some p2, some ts =>
     let prims : List (Prims Float) := ((qa.zip qb).zip (p1.zip p2)).map fun ((p, q), (f1, f2)) =>
-      { ang := angDist fl p q, cone := coneDist fl (toM3 p) (toM3 q), inp := inplane tolFloat f1 f2 }
+      { ang := angE p q, cone := coneDist fl (toM3 p) (toM3 q), inp := inplane tolFloat f1 f2 }
     Json.arr (ts.toList.map fun t =>
       let ty := match t with
         | Json.str s => s
@@ -119,7 +140,7 @@ def handle (j : Json) : Json :=
   | some "normals" =>
     match rows? j "ang" >>= (·.mapM zaxisOfDeg) with
     | some zs => Json.mkObj [("z", Json.arr (zs.map v3j).toArray),
-                             ("rows", Json.arr ((normalsRowwise fl zs).map v3j).toArray),
+                             ("rows", Json.arr ((normaliseBy Gen.C06.normalsNormMode fl zs).map v3j).toArray),
                              ("asis", Json.arr ((normalsAsIs fl zs).map v3j).toArray)]
     | none => err "bad-args"
   | some "zaxis" =>
@@ -129,7 +150,12 @@ def handle (j : Json) : Json :=
   | some "n2e" =>
     match rows? j "n" >>= (·.mapM v3?) with
     | some ns =>
-      let ang := ns.map (n2eAngles fl)
+      let ty := (getStr? j "pytype").getD "np.ndarray"
+      match inputConversion Gen.C06.n2eInputs ty with
+      | none => err "model:no-input-branch"
+      | some conv =>
+      if conv.startsWith "raise" then Json.mkObj [("raises", Json.str conv)] else
+      let ang := n2eBatchE Gen.C06.n2eThetaExpr Gen.C06.n2ePsiExpr Gen.C06.n2eNormMode fl Float.ofNat ns
       let z (cs : Float × Float × Float × Float) : V3 Float := zaxisOfEuler 1 0 cs.1 cs.2.1 cs.2.2.1 cs.2.2.2
       let order := (getStr? j "order").getD Gen.C06.outputOrderDefault
       Json.mkObj [("theta", fjs (ang.map (·.1))), ("psi", fjs (ang.map (·.2))),
